@@ -1,4 +1,5 @@
 import RedisVerif.Model.Shards
+import RedisVerif.Model.Redis
 
 /-
   A SMALL concrete per-shard executor (strings + lists) that instantiates `Shards.Exec`:
@@ -41,7 +42,7 @@ inductive Op2
   | rpoplpush
   /-- `LMOVE src dst LEFT|RIGHT LEFT|RIGHT` (`fromLeft`, `toLeft`); RPOPLPUSH = `lmove false true` -/
   | lmove (fromLeft toLeft : Bool)
-  /-- `SORT src STORE dst` (the executor's stub: bytewise order, lists only here) -/
+  /-- `SORT src STORE dst` (ascending numeric order, ties by bytes; lists only here) -/
   | sortStore
   /-- `EVAL "if redis.call('EXISTS', KEYS[1]) == 1 then redis.call('SET', KEYS[2], ARGV[1]) return 1
       else return 0 end" 2 src dst v` — a two-key script, routed by `KEYS[1]` -/
@@ -55,6 +56,8 @@ abbrev St := Store SVal
 def errNotInt : Nat := 2
 def errOverflow : Nat := 3
 def errNoSuchKey : Nat := 4
+/-- ERR One or more scores can't be converted into double -/
+def errNotDouble : Nat := 6
 
 /-! decimal i64 parsing / printing (`str::parse::<i64>`, `i64::to_string`) -/
 
@@ -241,8 +244,12 @@ def slot2 (op : Op2) (same : Bool) (oa ob : Option SVal) : Option SVal × Option
     | some (.str _) => (oa, ob, wrongType)
     | none => (oa, none, .one (.int 0))
     | some (.list l) =>
-      if (sortBytes l).isEmpty then (oa, none, .one (.int 0))
-      else (oa, some (.list (sortBytes l)), .one (.int (sortBytes l).length))
+      -- numeric since the `fix:` commit for C01:sort-stub-not-numeric: one element that is not a
+      -- number fails the command before the destination is touched (`Redis.sortNum` = strtod on
+      -- the integer syntax, which is all the C03 generators produce)
+      if l.any (fun e => (Redis.sortNum e).isNone) then (oa, ob, .one (.err errNotDouble))
+      else if (Redis.sortAll l).isEmpty then (oa, none, .one (.int 0))
+      else (oa, some (.list (Redis.sortAll l)), .one (.int (Redis.sortAll l).length))
   | .evalSetIfExists v =>
     if oa.isSome then (oa, some (.str v), .one (.int 1)) else (oa, ob, .one (.int 0))
 
